@@ -51,6 +51,12 @@ pub enum Op {
     /// take stored handle `slot` out of the value of the object `owner` points
     /// to; `unadopt`: call unadopt first; `keep`: keep it as a root, else drop
     Remove { owner: u16, slot: u16, unadopt: bool, keep: bool },
+    /// take every stored handle that points to the selected object out of every
+    /// accessible value (same rules as `Remove` for each)
+    StripHandlesTo { target: u16, unadopt: bool, keep: bool },
+    /// drop all roots of the selected object except one (leads to the
+    /// sole-handle states try_unwrap / make_mut / get_mut care about)
+    UniqueRoot(u16),
     Downgrade(u16),
     CloneWeak(u16),
     DropWeak(u16),
@@ -143,6 +149,8 @@ pub fn op_compact(op: &Op) -> String {
             if *unadopt { ",un" } else { "" },
             if *keep { ",keep" } else { "" }
         ),
+        Op::StripHandlesTo { target, unadopt, keep } => format!("StripHandlesTo({}{}{})", target, if *unadopt { ",un" } else { "" }, if *keep { ",keep" } else { "" }),
+        Op::UniqueRoot(h) => format!("UniqueRoot({})", h),
         Op::Downgrade(h) => format!("Downgrade({})", h),
         Op::CloneWeak(w) => format!("CloneW({})", w),
         Op::DropWeak(w) => format!("DropW({})", w),
